@@ -206,6 +206,8 @@ const KIND_TABLE: &[KindDef] = &[
     kd("write", "WRITE", Cls::Len, false),
     kd("sendzc", "SEND_ZC", Cls::Zc, false),
     kd("mread", "READ_MULTISHOT", Cls::MBuf, true),
+    // a multishot read that owns the LAST handle of its buffer pool
+    kd("mreado", "READ_MULTISHOT", Cls::MBuf, true),
     kd("readv", "READV", Cls::Len, true),
     kd("writev", "WRITEV", Cls::Len, false),
     kd("sendto", "SEND", Cls::Len, false),
@@ -1702,6 +1704,14 @@ impl LifeCase {
             }
             "mread" => {
                 let pool = self.pool.as_ref().unwrap().clone();
+                let mark = track::next_id();
+                let it = fd.multishot_read(pool);
+                let st = single_new_block(mark);
+                (Box::new(MRead(Box::pin(it))), st)
+            }
+            "mreado" => {
+                // a pool of its own, moved into the operation: no other handle, no `ReadBuf` yet
+                let pool = ReadBufPool::new(self.sq.as_ref().unwrap().clone(), 64, 64).expect("pool");
                 let mark = track::next_id();
                 let it = fd.multishot_read(pool);
                 let st = single_new_block(mark);
